@@ -1245,6 +1245,7 @@ func (env *Env) evalSlice(x *ast.SliceExpr, st *State) Val {
 	arr := c.fresh("sub", fmt.Sprintf("(Array Int %s)", es))
 	j := c.freshBound("j")
 	st.assume(fmt.Sprintf("(forall ((%s Int)) (! (= (select %s %s) (select (arr_%s %s) (+ %s %s))) :pattern ((select %s %s))))", j, arr, j, s, v.T, j, lo, arr, j))
+	st.assume(fmt.Sprintf("(forall ((%s Int)) (! (= (select %s (- %s %s)) (select (arr_%s %s) %s)) :pattern ((select (arr_%s %s) %s))))", j, arr, j, lo, s, v.T, j, s, v.T, j))
 	return Val{T: app("mk_"+s, arr, app("-", hi, lo)), Ty: rt}
 }
 
